@@ -25,7 +25,7 @@ BASE = {
         "open": 7, "add": 8, "close": 5, "drop": 2.5, "reconnect": 3, "ping": 0.7,
         "adv_small": 4, "adv_min": 2, "adv_sweep": 1.5, "adv_phase": 0.7, "adv_long": 0.4,
         "restart": 0.8, "kill": 0.3, "bad": 0.8, "stall": 0.2, "jump": 0.0, "dbfault": 0.0,
-        "persona": 1.5, "bulk": 0.0, "third": 0.5, "resend": 1.0,
+        "persona": 1.5, "bulk": 0.0, "third": 0.5, "resend": 1.0, "split": 0.2,
     },
 }
 
@@ -45,7 +45,7 @@ PROFILES = {
                       "restart": 1.5, "kill": 0.6, "close": 6}),
     "C02": profile(nsides=(2, 3), autoping_p=0.4, names=2, literal_ids=1, napps=(1, 2),
                    w={"add": 14, "open": 10, "connect": 10, "adv_sweep": 3, "restart": 2.0, "kill": 0.6,
-                      "stall": 0.6, "reconnect": 5, "close": 3, "release": 2, "persona": 1}),
+                      "stall": 0.6, "reconnect": 5, "close": 3, "release": 2, "persona": 1, "split": 2.0}),
     "C03": profile(names=3, w={"claim": 14, "allocate": 4, "release": 8, "restart": 1.5, "reconnect": 4,
                                "resend": 3, "close": 5, "adv_long": 0.8, "add": 3}),
     "C04": profile(allow_list_p=0.5, choice_modes=["faithful", "min", "max", "keyed"],
@@ -66,9 +66,9 @@ PROFILES = {
     "C09": profile(usage_p=0.6, w={"persona": 3, "adv_sweep": 2, "bad": 1.5}),
     "C12": profile(autoping_p=0.5, steps=(12, 50), names=3,
                    w={"adv_phase": 5, "adv_sweep": 5, "adv_min": 4, "adv_long": 1.5, "stall": 0.8, "add": 8,
-                      "open": 8, "restart": 1.0, "kill": 0.4, "drop": 3, "jump": 0.0, "close": 2, "release": 2}),
-    "C13": profile(quiesce_p=1.0, steps=(8, 40),
-                   w={"dbfault": 0.8, "adv_sweep": 2.5, "adv_long": 1.0, "third": 1.5, "reconnect": 4, "resend": 2,
+                      "open": 8, "restart": 1.0, "kill": 0.4, "drop": 3, "jump": 0.3, "close": 2, "release": 2, "split": 1.0}),
+    "C13": profile(quiesce_p=1.0, steps=(8, 40), jumps=[0.5, 30.0, 700.0, 3600.0],
+                   w={"dbfault": 0.8, "jump": 0.3, "adv_sweep": 2.5, "adv_long": 1.0, "third": 1.5, "reconnect": 4, "resend": 2,
                       "drop": 4, "close": 6}),
     "C15": profile(usage_p=1.0, nsides=(2, 4), steps=(10, 45),
                    w={"close": 9, "release": 7, "persona": 3, "adv_long": 1.2, "third": 1.5, "adv_sweep": 2,
@@ -82,7 +82,7 @@ PROFILES = {
                       "restart": 0.3, "kill": 0.3, "persona": 2.5, "third": 0.8, "bad": 0.2, "stall": 0}),
     "C11": profile(napps=(1, 2), names=2, literal_ids=1, autoping_p=0.2,
                    w={"restart": 2.5, "kill": 0.0, "adv_sweep": 3, "open": 9, "add": 9, "connect": 9, "reconnect": 5,
-                      "adv_min": 3, "jump": 0, "dbfault": 0}),
+                      "adv_min": 3, "jump": 0, "dbfault": 0, "split": 2.0}),
     "C14": profile(nsides=(2, 3), names=3, w={"resend": 0.0, "third": 1.0, "close": 7, "release": 6, "claim": 8,
                                                "open": 8, "restart": 0.5, "kill": 0.0}),
     "C18": profile(allow_list_p=0.5, w={"list": 6, "allocate": 6, "adv_long": 1.0}),
@@ -435,6 +435,27 @@ class Gen(object):
                 out += getattr(self, "a_" + what)(c)
         return out
 
+    def a_split(self):
+        """two connections that bind in different sweep epochs and then share a
+        mailbox: one binds, a sweep passes, the other binds, both open, both add"""
+        r = self.rng
+        app = r.choice(self.apps)
+        pool = self.mboxes[app]
+        mb = r.choice(pool) if pool else "mbx-x"
+        sides = r.sample(self.sides, 2) if len(self.sides) >= 2 else [self.sides[0]] * 2
+        if r.random() < 0.3:
+            sides[1] = sides[0]
+        a, out = self.a_connect(app=app, side=sides[0])
+        out.append({"op": "advance", "to": "sweep", "eps": r.choice([0.001, 0.5, 5.0])})
+        b, o2 = self.a_connect(app=app, side=sides[1])
+        out += o2
+        first, second = (a, b) if r.random() < 0.5 else (b, a)
+        out += self.a_open(first, mb)
+        out += self.a_open(second, mb)
+        out += self.a_add(a)
+        out += self.a_add(b)
+        return out
+
     def a_third(self):
         """a further side arrives at something two sides share"""
         cands = [c for c in self.bound() if c.opened is not None or c.claimed is not None]
@@ -507,6 +528,7 @@ class Gen(object):
             acts.append(("connect_unbound", w["connect_unbound"]))
             acts.append(("persona", w["persona"]))
             acts.append(("third", w["third"]))
+            acts.append(("split", w.get("split", 0)))
             dead = [c for c in self.conns.values() if not c.alive and c.app is not None]
             if dead:
                 acts.append(("reconnect", w["reconnect"]))
@@ -538,6 +560,8 @@ class Gen(object):
             return self.a_persona()
         if a == "third":
             return self.a_third()
+        if a == "split":
+            return self.a_split()
         if a in ("reconnect", "resend"):
             dead = [c for c in self.conns.values() if not c.alive and c.app is not None]
             return self.a_reconnect(r.choice(dead), resend=(a == "resend"))
@@ -591,7 +615,7 @@ class Gen(object):
                 st["down"] = round(r.choice([0.5, 30.0, 200.0, 700.0]) * (0.5 + r.random()), 3)
             return [st]
         if a == "jump":
-            return [{"op": "jump", "d": r.choice([-3600.0, -30.0, -0.5, 0.5, 30.0, 3600.0])}]
+            return [{"op": "jump", "d": r.choice(self.p.get("jumps", [-3600.0, -30.0, -0.5, 0.5, 30.0, 3600.0]))}]
         if a == "dbfault":
             return [{"op": "dbfault", "at": "sweep",
                      "error": r.choice(["database is locked", "disk I/O error", "database or disk is full"])},
